@@ -5,12 +5,27 @@ use crate::codec::Codec;
 use crate::seq::SeqSlice;
 use crate::Bs;
 
+/// Bit offset of the symbol at `index`.
+///
+/// Panics, like any other out-of-bounds index, when the offset does not fit in a `usize`;
+/// a wrapped offset would otherwise select symbols near the start of the sequence.
+fn bit_offset<A: Codec>(index: usize) -> usize {
+    index
+        .checked_mul(A::BITS as usize)
+        .expect("sequence index out of range")
+}
+
+/// Bit offset one past the symbol at `index`, for inclusive range ends.
+fn bit_offset_after<A: Codec>(index: usize) -> usize {
+    bit_offset::<A>(index.checked_add(1).expect("sequence index out of range"))
+}
+
 impl<A: Codec> Index<Range<usize>> for SeqSlice<A> {
     type Output = SeqSlice<A>;
 
     fn index(&self, range: Range<usize>) -> &Self::Output {
-        let s = range.start * A::BITS as usize;
-        let e = range.end * A::BITS as usize;
+        let s = bit_offset::<A>(range.start);
+        let e = bit_offset::<A>(range.end);
         let bs: *const Bs = ptr::from_ref::<Bs>(&self.bs[s..e]);
         unsafe { &*(bs as *const SeqSlice<A>) }
     }
@@ -20,7 +35,7 @@ impl<A: Codec> Index<RangeTo<usize>> for SeqSlice<A> {
     type Output = SeqSlice<A>;
 
     fn index(&self, range: RangeTo<usize>) -> &Self::Output {
-        let e = range.end * A::BITS as usize;
+        let e = bit_offset::<A>(range.end);
         let bs: *const Bs = ptr::from_ref::<Bs>(&self.bs[..e]);
         unsafe { &*(bs as *const SeqSlice<A>) }
     }
@@ -30,7 +45,7 @@ impl<A: Codec> Index<RangeToInclusive<usize>> for SeqSlice<A> {
     type Output = SeqSlice<A>;
 
     fn index(&self, range: RangeToInclusive<usize>) -> &Self::Output {
-        let e = (range.end + 1) * A::BITS as usize;
+        let e = bit_offset_after::<A>(range.end);
         let bs: *const Bs = ptr::from_ref::<Bs>(&self.bs[..e]);
         unsafe { &*(bs as *const SeqSlice<A>) }
     }
@@ -40,8 +55,8 @@ impl<A: Codec> Index<RangeInclusive<usize>> for SeqSlice<A> {
     type Output = SeqSlice<A>;
 
     fn index(&self, range: RangeInclusive<usize>) -> &Self::Output {
-        let s = range.start() * A::BITS as usize;
-        let e = (range.end() + 1) * A::BITS as usize;
+        let s = bit_offset::<A>(*range.start());
+        let e = bit_offset_after::<A>(*range.end());
 
         let bs: *const Bs = ptr::from_ref::<Bs>(&self.bs[s..e]);
         unsafe { &*(bs as *const SeqSlice<A>) }
@@ -52,7 +67,7 @@ impl<A: Codec> Index<RangeFrom<usize>> for SeqSlice<A> {
     type Output = SeqSlice<A>;
 
     fn index(&self, range: RangeFrom<usize>) -> &Self::Output {
-        let s = range.start * A::BITS as usize;
+        let s = bit_offset::<A>(range.start);
         let bs: *const Bs = ptr::from_ref::<Bs>(&self.bs[s..]);
         unsafe { &*(bs as *const SeqSlice<A>) }
     }
@@ -71,8 +86,8 @@ impl<A: Codec> Index<usize> for SeqSlice<A> {
     type Output = SeqSlice<A>;
 
     fn index(&self, i: usize) -> &Self::Output {
-        let s = i * A::BITS as usize;
-        let e = s + A::BITS as usize;
+        let s = bit_offset::<A>(i);
+        let e = bit_offset_after::<A>(i);
         let bs: *const Bs = ptr::from_ref::<Bs>(&self.bs[s..e]);
         unsafe { &*(bs as *const SeqSlice<A>) }
     }
